@@ -34,6 +34,7 @@ def check(run, tier):
                         ps.append({"x": "combine", "va": va, "vb": vb, "a": a, "b": b})
     run_calls(run, ps, batch=3000, nontrivial=lambda rec: rec["aknown"] and rec["bknown"] and rec["va"] > 0 and rec["vb"] > 0)
     progs = targeted.worklist_programs("evo") + targeted.naming_programs()
+    progs += targeted.round2_programs("evo") + targeted.round2_programs("fluent")
     n = 200 if q else 4000
     for i in range(n):
         dev = "evo" if i % 2 == 0 else "fluent"
